@@ -21,9 +21,9 @@ const CUR_MAX: usize = 200;
 const CALL_NO_OFF: usize = 216; // u32: ordinal of the monitored call in progress
 const AB_N_OFF: usize = 256; // u32: number of frames recorded by the SIGABRT handler
 const AB_CHAIN_OFF: usize = 264; // up to AB_MAX u64: return addresses inside the executable, relative to its text start
-const AB_MAX: usize = 10;
-const AB_FUNC_N_OFF: usize = 400; // u32: length of the function name (symbolize mode only)
-const AB_FUNC_OFF: usize = 404;
+const AB_MAX: usize = 24;
+const AB_FUNC_N_OFF: usize = 480; // u32: length of the function name (symbolize mode only)
+const AB_FUNC_OFF: usize = 484;
 const AB_FUNC_MAX: usize = 400;
 const DATA_OFF: usize = 1024;
 
@@ -49,6 +49,8 @@ pub struct EpAgg {
 #[derive(Clone, Debug)]
 pub struct PanicRec {
     pub ep: String,
+    /// return-address chain (key for panics raised outside /repo sources)
+    pub chain: String,
     pub file: String,
     pub line: u32,
     pub msg: String,
@@ -84,7 +86,8 @@ pub struct Report {
 
 // ------------------------------------------------------------------ panic capture (process-global)
 
-static FIRST_PANIC: Mutex<Option<(String, u32, String, String)>> = Mutex::new(None);
+/// (file, line, message, innermost /repo function [symbolize mode], return-address chain)
+static FIRST_PANIC: Mutex<Option<(String, u32, String, String, String)>> = Mutex::new(None);
 /// set in a child that re-runs a case to learn the function of a panic site (cold symbolization ~0.4 s)
 static SYMBOLIZE: std::sync::atomic::AtomicBool = std::sync::atomic::AtomicBool::new(false);
 
@@ -151,7 +154,7 @@ pub fn install_hook() {
             } else {
                 String::new()
             };
-            *g = Some((file, line, msg, func));
+            *g = Some((file, line, msg, func, exe_chain()));
         }
     }));
 }
@@ -163,7 +166,7 @@ pub fn warm_symbolizer() {
     std::hint::black_box(bt.len());
 }
 
-fn take_panic() -> Option<(String, u32, String, String)> {
+fn take_panic() -> Option<(String, u32, String, String, String)> {
     match FIRST_PANIC.lock() {
         Ok(mut g) => g.take(),
         Err(p) => p.into_inner().take(),
@@ -212,6 +215,42 @@ fn find_exe_range() {
     }
 }
 
+fn exe_frames() -> Vec<usize> {
+    let mut buf = [std::ptr::null_mut::<libc::c_void>(); 96];
+    let n = unsafe { libc::backtrace(buf.as_mut_ptr(), 96) }.max(0) as usize;
+    let (lo, hi) = (EXE_START.load(Ordering::Relaxed), EXE_END.load(Ordering::Relaxed));
+    buf.iter().take(n).map(|p| *p as usize).filter(|a| *a >= lo && *a < hi).map(|a| a - lo).collect()
+}
+
+/// frames of the harness below the case body (recorded by `mark_base` at the start of the body)
+static BASE_FRAMES: Mutex<Vec<usize>> = Mutex::new(Vec::new());
+
+/// Called first thing by the function that runs the entry points of a case.  Everything the
+/// call stack has in common with this moment (the harness frames that called the body, which
+/// differ between the worker and the symbolizer server) is cut off the chains taken later.
+#[inline(never)]
+pub fn mark_base() {
+    let f = exe_frames();
+    if let Ok(mut g) = BASE_FRAMES.lock() {
+        *g = f;
+    }
+}
+
+/// return addresses of the current call stack inside the executable (relative to its start), innermost
+/// first, without the harness frames below the case body: a pure function of the binary and the call path
+fn exe_chain() -> String {
+    let mut f = exe_frames();
+    if let Ok(g) = BASE_FRAMES.try_lock() {
+        let mut common = 0;
+        while common < f.len() && common < g.len() && f[f.len() - 1 - common] == g[g.len() - 1 - common] {
+            common += 1;
+        }
+        f.truncate(f.len() - common);
+    }
+    let v: Vec<String> = f.iter().take(AB_MAX).map(|a| format!("{a:x}")).collect();
+    v.join(",")
+}
+
 /// SIGABRT (refused allocation -> handle_alloc_error -> abort; stack overflow; double panic):
 /// leave the return-address chain in the shared region, in symbolize mode also the innermost
 /// /repo function, then die by the default action.  Runs in a process that is about to die.
@@ -220,14 +259,11 @@ extern "C" fn on_abort(_sig: libc::c_int) {
         libc::signal(libc::SIGABRT, libc::SIG_DFL);
         let region = REGION_PTR.load(Ordering::Relaxed);
         if !region.is_null() {
-            let mut buf = [std::ptr::null_mut::<libc::c_void>(); 64];
-            let n = libc::backtrace(buf.as_mut_ptr(), 64).max(0) as usize;
-            let (lo, hi) = (EXE_START.load(Ordering::Relaxed), EXE_END.load(Ordering::Relaxed));
+            let chain = exe_chain();
             let mut k = 0usize;
-            for p in buf.iter().take(n) {
-                let a = *p as usize;
-                if a >= lo && a < hi && k < AB_MAX {
-                    std::ptr::write_volatile((region.add(AB_CHAIN_OFF) as *mut u64).add(k), (a - lo) as u64);
+            for h in chain.split(',').filter(|x| !x.is_empty()) {
+                if k < AB_MAX {
+                    std::ptr::write_volatile((region.add(AB_CHAIN_OFF) as *mut u64).add(k), u64::from_str_radix(h, 16).unwrap_or(0));
                     k += 1;
                 }
             }
@@ -304,6 +340,10 @@ impl Recorder {
             self.call_no += 1;
             return None;
         }
+        if self.skip.contains(&self.call_no) {
+            self.call_no += 1;
+            return None;
+        }
         let r = self.call(ep, f);
         self.agg(ep).leaf = true;
         r
@@ -340,9 +380,9 @@ impl Recorder {
                 self.agg(ep).err += 1;
             }
             Err(_) => {
-                let (file, line, msg, func) = take_panic().unwrap_or_default();
-                if self.panics.len() < 48 && !self.panics.iter().any(|p| p.ep == ep && p.file == file && p.line == line) {
-                    self.panics.push(PanicRec { ep: ep.to_string(), file, line, msg, func });
+                let (file, line, msg, func, chain) = take_panic().unwrap_or_default();
+                if self.panics.len() < 48 && !self.panics.iter().any(|p| p.ep == ep && p.file == file && p.line == line && p.chain == chain) {
+                    self.panics.push(PanicRec { ep: ep.to_string(), chain, file, line, msg, func });
                 }
                 self.agg(ep).err += 0;
             }
@@ -397,7 +437,7 @@ impl Recorder {
         }
         for p in &self.panics {
             let m: String = p.msg.replace(['\n', '\x1f'], " ").chars().take(300).collect();
-            s.push_str(&format!("P\x1f{}\x1f{}\x1f{}\x1f{}\x1f{}\n", p.ep, p.file, p.line, m, p.func));
+            s.push_str(&format!("P\x1f{}\x1f{}\x1f{}\x1f{}\x1f{}\x1f{}\n", p.ep, p.file, p.line, m, p.func, p.chain));
         }
         let b = s.as_bytes();
         let n = b.len().min(REGION - DATA_OFF);
@@ -457,7 +497,7 @@ impl Sandbox {
                 "N" if p.len() >= 3 => rep.notes.push((p[1].to_string(), p[2].parse().unwrap_or(0))),
                 "C" if p.len() >= 2 => rep.max_consumed = p[1].parse().unwrap_or(0),
                 "V" if p.len() >= 3 => rep.viols.push((p[1].to_string(), p[2].to_string())),
-                "P" if p.len() >= 6 => rep.panics.push(PanicRec { ep: p[1].to_string(), file: p[2].to_string(), line: p[3].parse().unwrap_or(0), msg: p[4].to_string(), func: p[5].to_string() }),
+                "P" if p.len() >= 7 => rep.panics.push(PanicRec { ep: p[1].to_string(), file: p[2].to_string(), line: p[3].parse().unwrap_or(0), msg: p[4].to_string(), func: p[5].to_string(), chain: p[6].to_string() }),
                 _ => {}
             }
         }
@@ -484,7 +524,7 @@ impl Sandbox {
     /// `skip`: ordinals of calls that killed earlier children; `resume`: leaf calls below the
     /// highest of them are not repeated (false in symbolize mode, which replays a prefix exactly)
     pub fn run(&self, input_len: usize, sym: bool, skip: &[u32], resume: bool, body: &dyn Fn(&mut Recorder)) -> Report {
-        let resume_after = if resume { skip.iter().copied().max().unwrap_or(0) } else { 0 };
+        let resume_after = if resume { skip.iter().copied().max().map(|m| m + 1).unwrap_or(0) } else { 0 };
         if self.nofork {
             SYMBOLIZE.store(sym, Ordering::Relaxed);
             let mut rec = Recorder { region: std::ptr::null_mut(), input_len, skip: skip.to_vec(), resume_after, call_no: 0, panics: vec![], eps: vec![], viols: vec![], notes: vec![], max_consumed: 0 };
@@ -532,7 +572,7 @@ impl Sandbox {
             let mut rec = Recorder { region: self.region, input_len, skip: skip.to_vec(), resume_after, call_no: 0, panics: vec![], eps: vec![], viols: vec![], notes: vec![], max_consumed: 0 };
             let r = std::panic::catch_unwind(std::panic::AssertUnwindSafe(|| body(&mut rec)));
             if r.is_err() {
-                let (file, line, msg, _) = take_panic().unwrap_or_default();
+                let (file, line, msg, _, _) = take_panic().unwrap_or_default();
                 rec.viol("harness: panic outside a monitored entry point".into(), format!("{file}:{line}: {msg}"));
             }
             rec.set_current("");
@@ -685,10 +725,10 @@ impl SymServer {
                 let rep = handler(i, &skip);
                 let mut out = String::new();
                 for p in &rep.panics {
-                    out.push_str(&format!("P\x1f{}\x1f{}\x1f{}\n", p.file, p.line, p.func.replace('\n', " ")));
+                    out.push_str(&format!("P\x1f{}\x1f{}\x1f{}\x1f{}\n", p.file, p.line, p.func.replace('\n', " "), p.chain));
                 }
                 if let Some(d) = &rep.death {
-                    out.push_str(&format!("D\x1f{}\x1f{}\n", d.chain, d.func.replace('\n', " ")));
+                    out.push_str(&format!("D\x1f{}\x1f{}\n", d.call_no, d.func.replace('\n', " ")));
                 }
                 out.push_str("END\n");
                 if !write_all(rs[1], out.as_bytes()) {
@@ -707,8 +747,9 @@ impl SymServer {
         Some(SymServer { req_w: rq[1], resp_r: rs[0] })
     }
 
-    /// (panic sites as (file, line, func), death as (chain, func))
-    pub fn resolve(&self, i: u64, skip: &[u32]) -> Option<(Vec<(String, u32, String)>, Option<(String, String)>)> {
+    /// (panic sites as (file, line, func, chain), death as (ordinal of the dying call, func))
+    #[allow(clippy::type_complexity)]
+    pub fn resolve(&self, i: u64, skip: &[u32]) -> Option<(Vec<(String, u32, String, String)>, Option<(u32, String)>)> {
         let sk: Vec<String> = skip.iter().map(|x| x.to_string()).collect();
         if !write_all(self.req_w, format!("{};{}\n", i, sk.join(",")).as_bytes()) {
             return None;
@@ -722,8 +763,8 @@ impl SymServer {
             }
             let f: Vec<&str> = l.split('\x1f').collect();
             match f[0] {
-                "P" if f.len() >= 4 => panics.push((f[1].to_string(), f[2].parse().unwrap_or(0), f[3].to_string())),
-                "D" if f.len() >= 3 => death = Some((f[1].to_string(), f[2].to_string())),
+                "P" if f.len() >= 5 => panics.push((f[1].to_string(), f[2].parse().unwrap_or(0), f[3].to_string(), f[4].to_string())),
+                "D" if f.len() >= 3 => death = Some((f[1].parse().unwrap_or(u32::MAX), f[2].to_string())),
                 _ => {}
             }
         }
@@ -761,7 +802,7 @@ impl Report {
             }
         }
         for p in &earlier.panics {
-            if !self.panics.iter().any(|q| q.ep == p.ep && q.file == p.file && q.line == p.line) {
+            if !self.panics.iter().any(|q| q.ep == p.ep && q.file == p.file && q.line == p.line && q.chain == p.chain) {
                 self.panics.push(p.clone());
             }
         }
